@@ -22,6 +22,8 @@ ANCHOR_FILES = ["include/iora/network/transport_impl.hpp", "include/iora/network
 OBLIGATIONS = [
     {"id": "C04_skel", "theorem": "Iora.C04.skeleton_conforms", "kind": "proved",
      "statement": "genCfg.Good: the model is instantiated from the regenerated skeleton - lock extent of connectSync, one unlock window with only engine->close and abandoned set before it, handlers complete under the lock, wait_for(lk, timeout, done||shuttingDown), wrapper subInterval 100 ms / deadline now+timeout / min(remaining, subInterval), host/port/tls passed unchanged, engine error returned as is (decide)"},
+    {"id": "C04_saturate", "theorem": "Iora.C04.timeouts_saturate", "kind": "proved",
+     "statement": "connectSync and connectSyncCancellable saturate their timeout (detail::clampSyncTimeout, 100 years) before wait_for / the deadline computation: milliseconds::max() cannot wrap the deadline into the past (FC03b) (decide)"},
     {"id": "C04_T1", "theorem": "Iora.C04.T1_ok_is_live", "kind": "proved",
      "statement": "every schedule: ret ok sid only for the session this call created, after the onConnect handler delivered it, and never for a session any connectSync issued engine->close for"},
     {"id": "C04_T2_connect", "theorem": "Iora.C04.T2_no_global_connect", "kind": "proved",
@@ -156,11 +158,22 @@ def seq_monitor(c, impl):
 
 
 # ------------------------------------------------------------------ DetSched programs
+HUGE = [9223372036854775807, 9223372036854775, 9223372036854, 4294967296]     # ms; milliseconds::max() = "no timeout" (FC03b)
+
+
 def gen_sched_case(rng, big):
     ncall = rng.choice([1, 1, 1, 2, 2, 3, 4]) if not big else rng.choice([5, 8])
-    kind = rng.choice(["plain", "plain", "late", "mixed", "wrapped", "fence", "cancel", "refuse", "reasons"])
+    kind = rng.choice(["plain", "plain", "late", "mixed", "wrapped", "fence", "cancel", "refuse", "reasons", "long-timeout"])
     threads = []
     has_wrapped = False
+    if kind == "long-timeout":
+        # timeouts up to milliseconds::max(): every attempt is resolved by the engine (never `n`/`l`), so the call must return the
+        # engine's outcome - never an early Timeout (the unrepaired deadline arithmetic wrapped into the past, FC03b)
+        for i in range(rng.choice([1, 1, 2])):
+            threads.append(["%s:%d:%d" % (rng.choice(["k", "k", "w"]), rng.choice(HUGE), rng.choice([0, 1, 2]))])
+        policy = "".join(rng.choice("oofrpus") for _ in range(rng.range(1, 4)))
+        return {"cat": "sched-long-timeout", "seed": rng.below(2 ** 31), "timeoutOneIn": 0, "spuriousOneIn": rng.choice([0, 0, 5]),
+                "policy": policy, "threads": threads}
     for i in range(ncall):
         ops = []
         for _ in range(rng.choice([1, 1, 2]) if not big else 1):
